@@ -296,6 +296,7 @@ def pySort (xs : List Val) (rev : Bool) (key : SortKey) : Except Err (List Val) 
 inductive LOp where
   | get (i : Int) | getSlice (s : Slice) | len | contains (v : Val) | index (v : Val) | count (v : Val)
   | indexIn (v : Val) (start stop : Int)
+  | radd (vs : List Val)       -- `plain_list + l` (builtin `list.__add__`; a new plain list)
   | getBad | setBad | delBad
   | set (i : Int) (v : Val) | setSlice (s : Slice) (vs : List Val) | del (i : Int) | delSlice (s : Slice)
   | append (v : Val) | insert (i : Int) (v : Val) | extend (vs : List Val)
@@ -424,6 +425,7 @@ def specL (xs : List Val) (st : LStep) : LOut :=
   | .contains v => ⟨xs, .ok (.bool (findIdx v xs).isSome)⟩
   | .index v => ⟨xs, match findIdx v xs with | some j => .ok (.int j) | Option.none => .error .value⟩
   | .indexIn v a b => ⟨xs, match indexIn xs v a b with | some j => .ok (.int j) | Option.none => .error .value⟩
+  | .radd vs => ⟨xs, .ok (.list (vs ++ xs))⟩
   | .count v => ⟨xs, .ok (.int (countEq v xs))⟩
   | .getBad => fail xs .type
   | .setBad => fail xs .type
@@ -567,6 +569,7 @@ def implL (xs : List Val) (st : LStep) : LOut :=
   | .contains v => ⟨xs, .ok (.bool (findIdx v xs).isSome)⟩          -- builtin `list.__contains__`
   | .index v => ⟨xs, match findIdx v xs with | some j => .ok (.int j) | Option.none => .error .value⟩
   | .indexIn v a b => ⟨xs, match indexIn xs v a b with | some j => .ok (.int j) | Option.none => .error .value⟩
+  | .radd vs => ⟨xs, .ok (.list (vs ++ xs))⟩
   | .count v => ⟨xs, .ok (.int (countEq v xs))⟩
   | .getBad => fail xs .type
   | .setBad => fail xs .type
@@ -681,6 +684,7 @@ inductive DOp where
   | get (k : Key) | getD (k : Key) (d : Val) | contains (k : Key) | len
   | set (k : Key) (v : Val) | del (k : Key) | pop (k : Key) (d : Option Val) | popitem | clear
   | setdefault (k : Key) (d : Val) | update (pairs kw : List (Key × Val)) | copy
+  | union (pairs : List (Key × Val)) (reflected : Bool)   -- `d | x` / `x | d` (builtin `dict.__or__`: a new plain dict)
   | rebind (pairs kw : List (Key × Val))
   deriving Repr, Inhabited
 
@@ -698,6 +702,9 @@ namespace PyDict
 /-- Extension 1: assigning `MISSING` deletes the key (nothing happens if it is absent). -/
 def assign (kvs : List (Key × Val)) (k : Key) (v : Val) : List (Key × Val) :=
   if v.isMissing then dictErase kvs k else dictSet kvs k v
+
+/-- `a | b` on builtin dicts: a copy of `a` updated with `b` (plain assignments; a new dict). -/
+def union (a b : List (Key × Val)) : List (Key × Val) := b.foldl (fun acc p => dictSet acc p.1 p.2) a
 
 def assignAll (kvs : List (Key × Val)) : List (Key × Val) → List (Key × Val)
   | [] => kvs
@@ -733,6 +740,7 @@ def specD (kvs : List (Key × Val)) (st : DStep) : DOut :=
   -- `d.update(other, **kw)`: the entries of `other` in order, then the keyword arguments in order
   | .update pairs kw => ⟨PyDict.assignAll kvs (pairs ++ kw), .ok .none⟩
   | .copy => ⟨kvs, .ok (.dict kvs)⟩
+  | .union pairs r => ⟨kvs, .ok (.dict (if r then PyDict.union pairs kvs else PyDict.union kvs pairs))⟩
   | .rebind pairs kw =>
     if (pairs ++ kw).isEmpty then ⟨kvs, .error .value⟩ else ⟨PyDict.assignAll kvs (pairs ++ kw), .ok .none⟩
 
@@ -817,6 +825,8 @@ def implD (kvs : List (Key × Val)) (st : DStep) : DOut :=
   -- `update`: merge `other` and `kwargs`, then `rebind(KeyPath(k) …)` entry by entry
   | .update pairs kw => ⟨setAll kvs (mergePairs (pairs ++ kw)), .ok .none⟩
   | .copy => ⟨kvs, .ok (.dict (cloneKvs kvs))⟩                -- `copy` → `sym_clone(deep=False)`
+  -- `__or__` / `__ror__` are not overridden: the builtin reads the payload and builds a plain dict
+  | .union pairs r => ⟨kvs, .ok (.dict (if r then PyDict.union pairs kvs else PyDict.union kvs pairs))⟩
   | .rebind pairs kw =>
     -- `path_value_pairs.update(kwargs)`, then one entry at a time
     if (pairs ++ kw).isEmpty then ⟨kvs, .error .value⟩ else ⟨setAll kvs (mergePairs (pairs ++ kw)), .ok .none⟩
